@@ -122,6 +122,8 @@ def traced_run(wh, w, base):
     body = out[-1][len("trace:"):]
     for ev in (body.split("|") if body else []):
         p = ev.split()
+        if p and p[0] == "T":
+            continue            # reclamation-tracker call records (C12 hook) share the seam trace; not I/O events
         trace.append((int(p[0]), p[1], p[2], int(p[3]), int(p[4])))
     dirs = [d for d in os.listdir(base) if d.startswith("c")]
     kdir = os.path.join(base, dirs[0], "k")
